@@ -55,14 +55,13 @@ def step (s : State) : Op → State × Res
   | .peek => (s, .item s.items[s.cursor]?)
   | .isEnd => (s, .bool s.items[s.cursor]?.isNone)
   | .remaining =>
-    if s.cursor ≤ s.items.length then
-      ({ s with cursor := s.items.length }, .items (s.items.drop s.cursor))
-    else (s, .panic)
+    -- `items[cursor.min(len)..]` (after the `fix:` commit for finding F5; before it
+    -- this was `items[cursor..]`, which panicked when `next` had run past the end)
+    ({ s with cursor := s.items.length }, .items (s.items.drop (min s.cursor s.items.length)))
   | .seek k => ({ s with cursor := seekPos s k }, .unit)
   | .insert xs =>
-    if s.cursor ≤ s.items.length then
-      ({ s with items := s.items.take s.cursor ++ xs ++ s.items.drop s.cursor }, .unit)
-    else (s, .panic)
+    let pos := min s.cursor s.items.length
+    ({ s with items := s.items.take pos ++ xs ++ s.items.drop pos }, .unit)
 
 /-- run a history; after a panic nothing more is executed -/
 def run : State → List Op → List Res
